@@ -233,6 +233,24 @@ func extractHygiene(p *pkgs, f *facts) {
 	} else {
 		f.miss = append(f.miss, "serverListener_unix")
 	}
+	// cmdrunner.ReattachFunc probes on EVERY call of the function it returns: the returned literal itself contains the
+	// os.FindProcess and net.Dial calls, and cmd_reattach.go has no sync.Once / memo of any kind
+	probesEvery := false
+	if fn := p.fn("", "ReattachFunc"); fn != nil && len(fn.Body.List) >= 1 {
+		if rs, ok := fn.Body.List[len(fn.Body.List)-1].(*ast.ReturnStmt); ok && len(rs.Results) == 1 {
+			if fl, ok := rs.Results[0].(*ast.FuncLit); ok {
+				calls := nodeCalls(fl.Body)
+				probesEvery = strings.Contains(calls, "os.FindProcess(") && strings.Contains(calls, "net.Dial(") && len(fn.Body.List) == 1
+			}
+		}
+		if mentions([]string{"internal/cmdrunner/cmd_reattach.go"}, "Once", "Do", "OnceValue", "OnceValues", "OnceFunc") != 0 {
+			probesEvery = false
+		}
+	} else {
+		f.miss = append(f.miss, "cmdrunner.ReattachFunc")
+	}
+	f.lean = append(f.lean, fmt.Sprintf("def reattachFuncProbe : Hygiene.ProbeParams := ⟨%s⟩", leanBool(probesEvery)))
+	f.set("reattachFuncProbe", map[string]interface{}{"probesEveryCall": probesEvery})
 	f.lean = append(f.lean, fmt.Sprintf("def hygiene : Hygiene.Params := ⟨%s, %s, %s, %s, %s, %s, %s, %s, %s, %s, %s⟩",
 		leanBool(noResume), leanBool(envUntouched), leanBool(noDeadlines), leanBool(sharesDir), leanBool(doorFirst), leanBool(onlyExec), leanBool(slotAtomic),
 		leanBool(transIdentity), leanBool(dispIDs), leanBool(givenTLS), leanBool(randNames)))
